@@ -700,6 +700,14 @@ def gen_aq(r: random.Random, directed=None):
         params = dict(policy_length_months=plen,
                       policy_year_origin=D(2020, r.choice([1, 1, 4, 7, 10, 3]), 1),
                       continuous_issuance=(r.random() < 0.7) or plen < 12)
+    if not directed and r.random() < 0.18:
+        # the policy-year origin falls on the month/day of an evaluation date of the triangle (quarter ends): the first
+        # policy-year cell is then evaluated on the very day its period starts
+        e0 = r.choice(sorted({c.evaluation_date for c in cells}))
+        if (e0.month, e0.day) != (2, 29):
+            params["policy_year_origin"] = D(2020, e0.month, e0.day)
+            params["continuous_issuance"] = True
+            era = era + "+origin-on-evaluation-date"
     flat = True
     if not directed and r.random() < 0.06 and len(cells) > 2:
         # break the flat right edge: drop the final evaluation of one quarter
@@ -808,6 +816,8 @@ def month_id(d):
 
 
 def coq_aq(case, res, tables):
+    if case["policy_year_origin"].day != 1:
+        raise NotRepresentable("policy-year origin not on the first of a month: direct oracles only")
     sl = []
     b = "true" if case["continuous_issuance"] else "false"
     for ep, s in tables:
@@ -984,6 +994,21 @@ def harden_case(r, case):
 
         cells = [c.replace(metadata=with_pair(c.metadata, pair[0])) for c in cells] + \
                 [c.replace(metadata=with_pair(c.metadata, pair[1]), values={k: v + 1 for k, v in c.values.items()}) for c in cells]
+    elif 0.50 <= x < 0.62 and case["kind"] == "convert":
+        # boundary of the date validation: a cell evaluated on the FIRST day of its period (valid: evaluation >= period start)
+        case["harden"] = "evaluated-on-first-day"
+        picks = r.sample(cells, min(3, len(cells)))
+        extra = []
+        for c0 in picks:
+            kw = dict(period_start=c0.period_start, period_end=c0.period_end, evaluation_date=c0.period_start,
+                      metadata=c0.metadata, values=c0.values)
+            if type(c0).__name__ == "IncrementalCell":
+                kw["prev_evaluation_date"] = c0.period_start - datetime.timedelta(days=1)
+            try:
+                extra.append(type(c0)(**kw))
+            except Exception:       # noqa: BLE001  (a constructor refusing this valid cell is reported by hardening())
+                pass
+        cells = cells + extra
     elif x < 0.38 and case["kind"] in ("convert", "aq"):
         # I: restated cells -- the same coordinates a second time with other values (accepted with a warning)
         case["harden"] = "restated"
@@ -1319,8 +1344,12 @@ def policy_period_failures(out):
     """every Policy-basis period must be exactly twelve calendar months"""
     bad = []
     for c in out.cells:
-        y, m = add_m(c.period_start.year, c.period_start.month, 11)
-        if c.period_start.day != 1 or c.period_end != month_end(y, m):
+        ps = c.period_start
+        try:
+            want_end = D(ps.year + 1, ps.month, ps.day) - datetime.timedelta(days=1)
+        except ValueError:          # 29 February
+            continue
+        if c.period_end != want_end:
             bad.append(f"policy period {c.period_start}..{c.period_end} is not a twelve-month year")
     return sorted(set(bad))
 
@@ -1545,6 +1574,29 @@ def hardening(ctx):
     n += 1
     if r[0] != "ok" or np.asarray(r[1][0]).any() or np.asarray(r[1][1]).any():
         report("program_earned_premium(premium_volume=0) is not identically zero", "falsy-premium")
+    # boundary of the Cell date validation: evaluation on the FIRST day of the period is valid; convert_currency keeps it
+    r = run_guard(lambda: convert_currency(Triangle([cc(dict(q, evaluation_date=q["period_start"]), {"paid_loss": 4.0},
+                                                        Metadata(currency="EUR"))]), "USD", {"EUR": 1.25}))
+    n += 1
+    if r[0] != "ok" or len(r[1]) != 1 or r[1].cells[0]["paid_loss"] != 5.0 or r[1].cells[0].evaluation_date != q["period_start"]:
+        report("a cell evaluated on the first day of its period (valid) is not converted: " + repr(r[1])[:140], "first-day-convert")
+    # policy-year origin on the month/day of an evaluation date: the first policy-year cell is evaluated on the day its
+    # period starts; the flat-right-edge quarterly triangle must be converted with its totals conserved
+    qcells = []
+    for qi, (yy, mm) in enumerate([(2020, 1), (2020, 4), (2020, 7), (2020, 10)]):
+        pe_ = month_end(*add_m(yy, mm, 2))
+        for e_ in (D(2020, 3, 31), D(2020, 6, 30), D(2020, 9, 30), D(2020, 12, 31)):
+            if e_ >= pe_:
+                qcells.append(cc(dict(period_start=D(yy, mm, 1), period_end=pe_, evaluation_date=e_), {"paid_loss": float(8 * (qi + 1))}))
+    tq = Triangle(qcells)
+    for origin in (D(2020, 6, 30), D(2019, 12, 31), D(2020, 3, 31)):
+        case_o = dict(kind="aq", tri=tq, flat=True, era="modern", policy_length_months=12, policy_year_origin=origin,
+                      continuous_issuance=True)
+        fails_o = oracle_aq(case_o, run_aq(case_o))
+        n += 1
+        if fails_o:
+            report(f"accident_quarter_to_policy_year(policy_year_origin={origin}) on quarter-end evaluations: " + fails_o[0],
+                   "origin-on-evaluation-date")
     # F: empty triangles (convert / policy year return the empty triangle; disaggregate_experience(Triangle([])) raises
     # ValueError -- outside the quantifier 'semi-regular triangles of resolution 3/6/12' (lead's decision): a note only)
     for name, call in (("convert_currency", lambda: convert_currency(Triangle([]), "USD", {})),
@@ -1651,13 +1703,12 @@ def replay(ctx, data):
         from harness.common import Ctx
 
         c2 = Ctx("C18", "quick", 1)
-        c2.known = []
+        got = []
+        c2.violation = lambda kind, what, d, found_input, finding_class=None: got.append((what, d))   # nothing is written
         hardening(c2)
-        hit = [v for v in c2.violations if json.load(open(v["replay"]))["data"].get("name") == data.get("name")]
-        for v in c2.violations:
-            Path(v["replay"]).unlink(missing_ok=True)
-        for v in hit:
-            print("  FAIL:", v["what"])
+        hit = [w for w, d in got if d.get("name") == data.get("name")]
+        for w in hit:
+            print("  FAIL:", w)
         return 1 if hit else 0
     if data.get("probe") == "H2":
         from bermuda import CumulativeCell, Triangle
